@@ -53,6 +53,13 @@ def base_loop_table(run, model, rule="C04.accept-all"):
                     b = bind_call(collapse, call)
                     if b and "bases_have_func" in b and isinstance(b["bases_have_func"], ast.Name):
                         have_var = b["bases_have_func"].id
+        # the accept-all flag: the local whose truth, after the loop, empties the inherited groups
+        emptier_vars = set()
+        for n in flow.cfg.nodes:
+            if n.kind == "test" and isinstance(n.ast, ast.Name):
+                for k, tgt in n.succ:
+                    if k == "T" and tgt.kind == "stmt" and isinstance(tgt.ast, ast.Assign) and src_of(tgt.ast.value) == "[]":
+                        emptier_vars.add(n.ast.id)
         for member, ck in rows:
             def ev(t, member=member, ck=ck):
                 ts = strip_sites(t)
@@ -86,7 +93,7 @@ def base_loop_table(run, model, rule="C04.accept-all"):
             for p in feas:
                 ext = sorted(set(ct[2][0][2] for ct, n in p.calls if ct[1][0] == "attr" and ct[1][2] == "extend" and ct[2] and ct[2][0][0] == "attr" and is_base_checker(ct[2][0][1])))
                 flags = sorted(nm for nm, v in p.env.items() if v == ("const", "True") and any(isinstance(nn.ast, ast.Assign) and any(isinstance(tg, ast.Name) and tg.id == nm for tg in nn.ast.targets) for nn in p.nodes if nn.kind == "stmt"))
-                others = [nm for nm in flags if nm != have_var]
+                others = [nm for nm in flags if nm != have_var and (nm in emptier_vars or not emptier_vars)]
                 effects.add((tuple(ext), have_var in flags, tuple(others)))
             if member in ("absent", "present-without-accessor"):
                 want_ext, want_have, want_acc = (), False, False
@@ -112,7 +119,7 @@ def base_loop_table(run, model, rule="C04.accept-all"):
         acc_vars = set()
         for p in ps:
             for nm, v in p.env.items():
-                if v == ("const", "True") and nm != have_var:
+                if v == ("const", "True") and nm != have_var and (nm in emptier_vars or not emptier_vars):
                     acc_vars.add(nm)
         ok = False
         for n in flow.cfg.nodes:
